@@ -48,7 +48,7 @@ def _op_strategy(kinds_weighted, n_variants, allow_pm_false=False):
             return st.builds(lambda s, m, ts, r, d, how, tm: {'op': 'force_chain', 'slot': s, 'member': m, 'tasks': ts,
                                                              'recompute': r, 'delete': d, 'as': how, 'through_multi': tm},
                              slot, member, st.lists(task, min_size=1, max_size=3), st.booleans(), st.booleans(),
-                             st.sampled_from(['name', 'object', 'single']), st.booleans())
+                             st.sampled_from(['name', 'object', 'single', 'generator']), st.booleans())
         if kind == 'fault':
             return st.builds(lambda s, m, t: {'op': 'fault', 'slug_of': [s, m, t], 'n': 1}, slot, member, task)
         if kind == 'restart':
